@@ -66,7 +66,7 @@ def mc_module(name: str, requests, boards, scripts, fault=None) -> Path:
 
 
 def table_cfg(ntricks: int, sync='barrier', close=True, interrupts=False,
-              invs=(), props=(), deadlock=True, join='wait') -> str:
+              invs=(), props=(), deadlock=True, join='wait', end='after-close') -> str:
     txt = tlc.cfg_text(specification='Spec',
                        constants={'Requests': '<- MCRequests', 'Boards': '<- MCBoards',
                                   'Script': '<- MCScript', 'NTricksM': str(ntricks),
@@ -75,6 +75,7 @@ def table_cfg(ntricks: int, sync='barrier', close=True, interrupts=False,
                                   'Fault': '<- MCFault',
                                   'Interrupts': 'TRUE' if interrupts else 'FALSE',
                                   'JoinImpl': f'"{join}"',
+                                  'EndAnnounce': f'"{end}"',
                                   'defaultInitValue': '0'},
                        invariants=invs, properties=props, deadlock=deadlock)
     for k in ('Requests', 'Boards', 'Script', 'Fault'):
@@ -84,16 +85,17 @@ def table_cfg(ntricks: int, sync='barrier', close=True, interrupts=False,
 
 GOOD = [(0, 'ns', 18), (1, 'ew', 18), (2, 'ns', 18), (3, 'ew', 18)]
 SAFETY = ['Completed', 'LogPrefix', 'LogCorrect', 'SentComplete', 'AbortLog', 'BarrierShape',
-          'RunReturnsAfterThreads',
+          'RunReturnsAfterThreads', 'DeclaredOverImpliesLogClosed',
           'RejectedGetOneError', 'SeatedAsSpecified', 'PartnersShareTeam']
 
 
 def run_model(chk: Check, what: str, requests, boards, scripts, ntricks, *, fault=None,
               sync='barrier', close=True, interrupts=False, invs=SAFETY,
               props=('TableOnlyGrows',), simulate: Optional[str] = None, depth=None,
-              expect: Optional[str] = None, deadlock=True, workers=12, timeout=3000, join='wait'):
+              expect: Optional[str] = None, deadlock=True, workers=12, timeout=3000, join='wait',
+              end='after-close'):
     d = mc_module('MCTable', requests, boards, scripts, fault)
-    cfg = table_cfg(ntricks, sync, close, interrupts, invs, props, deadlock, join)
+    cfg = table_cfg(ntricks, sync, close, interrupts, invs, props, deadlock, join, end)
     kw: Dict[str, Any] = {}
     if simulate:
         kw = dict(simulate=simulate, depth=depth or 800, seed=seed() + 11)
@@ -173,12 +175,17 @@ def design(chk: Check, pid: str, tier: str) -> None:
                       workers=16)
     elif pid in ('C08', 'C10', 'C11'):
         invs = ['Completed', 'LogPrefix', 'LogCorrect', 'SentPrefix', 'SentComplete',
-                'RunReturnsAfterThreads']
+                'RunReturnsAfterThreads', 'DeclaredOverImpliesLogClosed']
         b1 = small_board(r, 1, seed() % 4, 1)
         if quick:
             run_model(chk, 'Table: log and per-connection streams equal the sequential meaning '
                            '(1 passed-out board, every interleaving)',
                       GOOD, [b0], [script_for(*b0, po, 1, r)], 1, invs=invs, props=[])
+            if pid == 'C08':
+                run_model(chk, 'Table regression: "End of session" queued before the log is closed',
+                          GOOD, [b0], [script_for(*b0, po, 1, r)], 1, end='before-close',
+                          invs=['DeclaredOverImpliesLogClosed'], props=[],
+                          expect='DeclaredOverImpliesLogClosed', workers=8)
             run_model(chk, 'Table: the same on a played board (one trick), simulation',
                       GOOD, [b1], [script_for(*b1, [35, 1, 36, 35, 35, 35], 1, r)], 1,
                       invs=invs, props=[], simulate='num=4', depth=900, workers=8)
